@@ -755,6 +755,27 @@ pub fn run(args: &Args) -> i32 {
             }
         }
     }
+    // (e) structured sparse matrices: weighted cyclic shifts (generalised n-cycle permutation matrices,
+    //     M e_i = w_i e_(i+1 mod n)): det = (-1)^(n-1) * prod w_i by construction.  Their Krylov sequences have long
+    //     runs of zeros, so the Euclidean steps of Berlekamp-Massey take quotients of degree >= 2.
+    {
+        let dims: Vec<usize> = if thorough { (8..=24).collect() } else { vec![8, 9, 12, 15, 22] };
+        for (ci, &n) in dims.iter().enumerate() {
+            for variant in 0..2 {
+                let w: Vec<i64> = (0..n).map(|i| if variant == 0 { 1 } else { [1i64, -1, 2, 3, -2][(i * 7 + ci) % 5] }).collect();
+                let mut m = vec![vec![0i64; n]; n];
+                for i in 0..n {
+                    m[(i + 1) % n][i] = w[i];
+                }
+                let sign = if (n - 1) % 2 == 0 { 1 } else { -1 };
+                let c = Case { id: format!("cyc{}v{}", n, variant), variant: "base", k: n, m, x: vec![], xc: Some(vec![]), sign,
+                               factors: w.iter().map(|&x| x as i128).collect(), diag: vec![], grp: false,
+                               src: json!({"native": "cyclic-shift", "n": n}) };
+                ev_det_sparse(&c, &mut rng, &mut out);
+                ev_det_dense(&c, &mut out);
+            }
+        }
+    }
     // Berlekamp-Massey on sequences with a known recurrence
     let reps = if thorough { 3 } else { 1 };
     let mut idx = 0;
